@@ -199,7 +199,7 @@ def run_construct(spec, rec, PhiManip):
         ref, zstar = new_pop_ref(phi, grids, full, xx)
         # the deposit weights are (z* - x_k)/dx: one ulp of difference in how the last proportion is formed (1-f1-f2-f3 against
         # 1-sum) moves z* by eps and the weight by eps/dx, which on the clustered default grid is well above 1e-11
-        tol_w = TOL + 16 * 2.2e-16 / float(np.min(np.diff(xx)))
+        tol_w = TOL + 16 * (nd + 1) * 2.2e-16 / float(np.min(np.diff(xx)))
         rec.close("new-pop-reference", relerr(out, ref), tol_w, site=site, tags=tags)
         value_mean_check(rec, out, zstar, xx, phi, site, tags)
         # pure splits through the dedicated entry points
